@@ -294,6 +294,21 @@ func (l *Locker) Unlock() {
 
 var liveLog = os.Getenv("VERIF_LIVE") != ""
 
+// LockWaiters lists, for every held locker that has waiters, the identities waiting for it.
+func (s *Sim) LockWaiters() map[string][]string {
+	s.mu.Lock()
+	defer s.mu.Unlock()
+	out := map[string][]string{}
+	for _, l := range s.lockers {
+		if l.held && len(l.waiters) > 0 {
+			for _, w := range l.waiters {
+				out[l.Name] = append(out[l.Name], w.id)
+			}
+		}
+	}
+	return out
+}
+
 // Event is one enabled scheduling choice.
 type Event struct {
 	Kind   string
